@@ -804,10 +804,6 @@ Definition d6_class (c : cell) (p : prediction) : bool :=
   negb (p_registered p) && c_during c && conn_level (c_event c)
   && match p_blocked p with Some s => is_open_site s | None => false end.
 
-(* the class of the second finding: the context exit is entered after a connection-level event *)
-Definition quiet_exit_class (c : cell) : bool :=
-  is_ax (c_op c) && negb (c_during c) && conn_level (c_event c).
-
 (* what the property asks of the call: the GRPCError explaining the failure when a failing status had
    arrived, a stream-termination error otherwise *)
 Definition expected_ctx (c : cell) : outcome :=
@@ -842,7 +838,6 @@ Definition cell_check (c : cell) : bool :=
           && eqb (is_pending (p_late p)) (is_pending (p_op p) && negb (c_deadline c))
           && (is_pending (p_op p)
               || (if misuse_class c then outcome_eqb (p_op p) OProtocol
-                  else if quiet_exit_class c then outcome_eqb (p_op p) OOk && outcome_eqb (p_ctx p) OOk
                   else is_term_error (p_op p) && outcome_eqb (p_ctx p) (expected_ctx c))))).
 
 Lemma matrix_check_b : forallb cell_check all_cells = true.
@@ -859,9 +854,9 @@ Qed.
    path the interpreter selects is one of the syntactic paths the theorems quantify over, and in every
    cell that can be set up:  the operation is still pending at quiescence EXACTLY in the D6 class (the
    context exit is then pending too, and only a deadline ends it);  otherwise the operation ends with a
-   termination error and the call with exactly the error the property asks for -- EXCEPT in the
-   quiet-exit class (context exit entered after a connection-level event), where it returns normally
-   (and except the cells that ask for a refused call: ProtocolError). *)
+   termination error and the call with exactly the error the property asks for -- also the context exit
+   entered after a connection-level event (the former finding D35, repaired) -- except the cells that ask
+   for a refused call (ProtocolError). *)
 Theorem matrix_pending_is_exactly_d6 :
   forall c, In c all_cells ->
     let p := predict client_ops c in
@@ -873,7 +868,6 @@ Theorem matrix_pending_is_exactly_d6 :
        is_pending (p_late p) = (is_pending (p_op p) && negb (c_deadline c)) /\
        (is_pending (p_op p) = false ->
           if misuse_class c then p_op p = OProtocol
-          else if quiet_exit_class c then p_op p = OOk /\ p_ctx p = OOk
           else is_term_error (p_op p) = true /\ p_ctx p = expected_ctx c)).
 Proof.
   intros c Hin p.
@@ -891,22 +885,20 @@ Proof.
     + intro Hc. rewrite Hc in H6. simpl in H6. rewrite orb_false_r in H6. exact H6.
     + intro Hp. rewrite Hp in H8. simpl in H8.
       destruct (misuse_class c); [apply outcome_eqb_eq; exact H8|].
-      destruct (quiet_exit_class c).
-      * apply andb_prop in H8. destruct H8 as [A B]. split; apply outcome_eqb_eq; assumption.
-      * apply andb_prop in H8. destruct H8 as [A B]. split; [exact A | apply outcome_eqb_eq; exact B].
+      apply andb_prop in H8. destruct H8 as [A B]. split; [exact A | apply outcome_eqb_eq; exact B].
 Qed.
 
-(* FULL-STRENGTH statement of the last clause (false -- second finding): also the context exit entered
-   after a connection-level event ends with the error the property asks for.  Witness: the server had
-   answered NOT_FOUND (trailers), the connection is lost, the body ends normally: __aexit__ returns. *)
+(* The former finding D35 (repaired in the code, so now a theorem): the server had answered NOT_FOUND
+   (trailers), the connection is lost, the body ends normally: the implicit finish is refused by the
+   wrapper and __aexit__ raises the explaining GRPCError(5). *)
 Definition quiet_exit_cell : cell :=
   {| c_op := KAx; c_reason := RPaused; c_event := VLost; c_during := false; c_deadline := false;
      c_status := StTrailers 5; c_variant := VaBase |}.
 
-Theorem context_exit_after_conn_event_refuted :
+Theorem context_exit_after_conn_event_raises :
   let p := predict client_ops quiet_exit_cell in
-  p_setup p = SOk /\ p_registered p = true /\ p_werr p = OTerminated /\ p_op p = OOk /\ p_ctx p = OOk
-  /\ expected_ctx quiet_exit_cell = OGrpc 5.
+  p_setup p = SOk /\ p_registered p = true /\ p_werr p = OTerminated /\ p_op p = OGrpc 5
+  /\ p_ctx p = OGrpc 5 /\ expected_ctx quiet_exit_cell = OGrpc 5.
 Proof.
   vm_compute. repeat split; reflexivity.
 Qed.
